@@ -11,7 +11,7 @@ from gtwrap.template_instantiator import helpers as H
 
 from harness.pipe import is_ident
 from harness.known import kf_open
-from vlib.trace import reached, concrete
+from vlib.trace import reached, concrete, pick
 
 LAST_FAILURE = None
 THOROUGH = os.environ.get("VERIF_TIER", "quick") == "thorough"
@@ -49,19 +49,81 @@ def c08_name_single(a: str) -> bool:
     return ok
 
 
-def c08_name_nested(a: str, b: str) -> bool:
+def c08_name_nested(a: str, bsel: int) -> bool:
     """
     Two arguments, the first one itself templated with two arguments (the second again templated with two): names
     are concatenated in source order, depth first, each top-level part capitalised at its own first letter only.
-    pre: is_ident(a, 1, LN2) and is_ident(b, 1, LN2 - 1)
-    pre: not (kf_open('C08-capitalise') and (a[0] in a[1:] or a[0] in b or b[0] in b[1:]))
+    The outer name `a` is symbolic; the inner name is one of four fixed spellings.
+    pre: is_ident(a, 1, LN2) and 0 <= bsel < (4 if THOROUGH else 2)
+    pre: not (kf_open('C08-capitalise') and (a[0] in a[1:]))
     post: _
     """
+    b = ("d", "aa", "Zq", "a_")[pick(bsel, 0, 4)]
     first = parser.Typename(["std", a], [parser.Typename([b]), parser.Typename(["y", "Zz"], [parser.Typename(["Q9"]), parser.Typename([b])])])
     got = H.instantiate_name("Tmpl", [first, parser.Typename(["x", b])])
     want = "Tmpl" + _cap(a) + b + "Zz" + "Q9" + b + _cap(b)
     ok = got == want or _fail(a=a, b=b, got=got, want=want)
     reached()
+    return ok
+
+
+# ---------------------------------------------------------------- every instantiation-argument tree of a small algebra
+N_NAMES = ["a", "Ab", "aa", "zed9"]
+N_NS = [(), ("x",), ("x", "Yy")]
+NNODE = len(N_NAMES) * len(N_NS)            # 12 (name, namespace) heads
+
+
+def n_head(code):
+    return N_NAMES[code // len(N_NS)], N_NS[code % len(N_NS)]
+
+
+def n_trees(depth):
+    """all trees: head + 0, 1 or 2 children (children of depth-1 trees are leaves)"""
+    leaves = [(n_head(h), ()) for h in range(NNODE)]
+    if depth == 0:
+        return leaves
+    out = list(leaves)
+    for h in range(NNODE):
+        for c1 in leaves:
+            out.append((n_head(h), (c1,)))
+            for c2 in leaves[::5]:
+                out.append((n_head(h), (c1, c2)))
+    return out
+
+
+def n_typename(t):
+    (name, ns), kids = t
+    return parser.Typename(list(ns) + [name], [n_typename(k) for k in kids])
+
+
+def n_preorder(t):
+    (name, _ns), kids = t
+    return name + "".join(n_preorder(k) for k in kids)
+
+
+def c08_all_names(head: int, second: int) -> bool:
+    """
+    Every instantiation argument that is a tree over 4 names x 3 namespaces with up to two template arguments, which
+    may have up to two (leaf) arguments themselves, alone and followed by a second argument: the instantiation suffix is
+    the names of the tree in source order (depth first, left to right), namespaces dropped, first letter of each
+    top-level argument capitalised.
+    pre: 0 <= head < NNODE and 0 <= second <= NNODE
+    post: _
+    """
+    head, second = pick(head, 0, NNODE), pick(second, 0, NNODE + 1)
+    ok = True
+    with concrete():
+        d1 = n_trees(1)
+        sec = [] if second == NNODE else [(n_head(second), ((n_head((second * 7 + 3) % NNODE), ()),) if second % 2 else ())]
+        firsts = [(n_head(head), ())] + [(n_head(head), (c1,)) for c1 in d1[::3]] + [(n_head(head), (c1, c2)) for c1 in d1[::7] for c2 in d1[1::41]]
+        for t in firsts:
+            args = [t] + sec
+            got = H.instantiate_name("Tmpl", [n_typename(x) for x in args])
+            want = "Tmpl" + "".join(_cap(n_preorder(x)) for x in args)
+            if got != want:
+                ok = _fail(arguments=[n_typename(x).to_cpp() for x in args], got=got, want=want)
+                break
+    reached({"head": head, "second": second} if not ok else None)
     return ok
 
 
